@@ -45,12 +45,13 @@ VARIABLES cell,          \* the endpoint's nonce cell (endpoint.nonce)
           acctKey,       \* CA account table: account id -> key on record
           retryDue,      \* the last answer was a recoverable error below the bound: the request has to be sent again
           caller,        \* who made the current logical request (a certificate; "none" in the model)
+          getFailed,     \* the nonce fetch of the call in progress was answered with an error (whatever headers came with it)
           prev,          \* [url, fail]: the URL of the previous logical request of this attempt and how it ended
                          \*   ("none" = answered 2xx, "adne" = accountDoesNotExist, "open" = anything else)
           bad            \* labels of the property guards violated by the last step
 
 vars == <<cell, issued, consumed, phase, tries, content, wire, answer, newest,
-          sentNonces, polls, pollUrl, nreq, acctKey, retryDue, caller, prev, bad>>
+          sentNonces, polls, pollUrl, nreq, acctKey, retryDue, caller, prev, getFailed, bad>>
 
 NoNonce == "none"
 NoContent == "none"
@@ -88,7 +89,7 @@ InitWith(table) ==
     /\ phase = "idle" /\ tries = 0 /\ content = NoContent
     /\ wire = NoNonce /\ answer = NoAnswer /\ newest = NoNonce
     /\ sentNonces = {} /\ polls = 0 /\ pollUrl = "none" /\ nreq = 0
-    /\ acctKey = table /\ retryDue = FALSE /\ caller = "none" /\ prev = NoPrev /\ bad = {}
+    /\ acctKey = table /\ retryDue = FALSE /\ caller = "none" /\ prev = NoPrev /\ getFailed = FALSE /\ bad = {}
 
 Init == InitWith("a" :> "k")
 
@@ -119,6 +120,7 @@ BeginAs(isPoll, url, who) ==
        ELSE polls' = 0 /\ pollUrl' = "none" /\ bad' = Chk("C08_RetriesRecoverable", ~retryDue)
                                                            \cup Chk("C08_NoResendAfterFailure", ~Resent(url, who))
                                                            \cup Chk("C08_FailureEndsAttempt", ~AfterFailure(who))
+    /\ getFailed' = FALSE
     /\ Keep(<<cell, issued, consumed, newest, acctKey>>)
 Begin(isPoll, url) == BeginAs(isPoll, url, "none")
 
@@ -129,13 +131,14 @@ AttemptOver(who) ==
     /\ retryDue' = IF caller = who THEN FALSE ELSE retryDue
     /\ prev' = IF caller = who THEN NoPrev ELSE prev
     /\ Keep(<<cell, issued, consumed, phase, tries, content, wire, answer, newest, sentNonces,
-              polls, pollUrl, nreq, acctKey, caller>>)
+              polls, pollUrl, nreq, acctKey, caller, getFailed>>)
 
 (* A GET (directory, newNonce) reaches the CA; n is the Replay-Nonce of the  *)
 (* answer, NoNonce when there is none or the answer is lost.                  *)
-CaGet(n) ==
+CaGet(n, failed) ==
     /\ issued' = IF n = NoNonce THEN issued ELSE issued \cup {n}
-    /\ retryDue' = IF n = NoNonce THEN FALSE ELSE retryDue    \* a nonce fetch that fails ends the call (`?')
+    /\ retryDue' = IF n = NoNonce \/ failed THEN FALSE ELSE retryDue    \* a nonce fetch that fails ends the call (`?')
+    /\ getFailed' = (getFailed \/ failed)
     /\ Keep(<<cell, consumed, phase, tries, content, wire, answer, newest, sentNonces,
               polls, pollUrl, nreq, acctKey, caller, prev>>) /\ bad' = {}
 
@@ -143,7 +146,7 @@ CaGet(n) ==
 SetNonce(n) ==
     /\ cell' = n /\ newest' = n
     /\ Keep(<<issued, consumed, phase, tries, content, wire, answer, sentNonces, polls,
-              pollUrl, nreq, acctKey, retryDue, caller, prev>>) /\ bad' = {}
+              pollUrl, nreq, acctKey, retryDue, caller, prev, getFailed>>) /\ bad' = {}
 
 (* One transmission (loop body up to `send()`).  usedNonce: what the code put *)
 (* in the protected header; cellAfter: the cell once the request is built.    *)
@@ -154,13 +157,16 @@ Send(usedNonce, cellAfter) ==
                   tries > 0 => (answer.kind = "error" /\ answer.type \in Recoverable))
          \cup Chk("C08_NewestNonce",
                   tries > 0 => (usedNonce = newest /\ usedNonce \notin sentNonces))
+         \* a nonce fetch that was answered with an error fails the call: no transmission follows it, even if the error page
+         \* carried a Replay-Nonce header
+         \cup Chk("C08_NoSuccessOnError", ~getFailed)
     /\ wire' = usedNonce
     /\ sentNonces' = sentNonces \cup {usedNonce}
     /\ tries' = tries + 1
     /\ cell' = cellAfter
     /\ phase' = "sent"
     /\ answer' = NoAnswer /\ retryDue' = FALSE
-    /\ Keep(<<issued, consumed, content, newest, polls, pollUrl, nreq, acctKey, caller, prev>>)
+    /\ Keep(<<issued, consumed, content, newest, polls, pollUrl, nreq, acctKey, caller, prev, getFailed>>)
 
 (* The CA receives a POST.  j: what the CA's own JWS verification found       *)
 (*   [nonce, url_ok, flattened, alg_ok, has_jwk, has_kid, kid_acct, signer,   *)
@@ -197,28 +203,28 @@ CaHandle(j, kind, type, n, upd) ==
                   THEN (upd.acct :> upd.key) @@ [a \in {x \in DOMAIN acctKey : acctKey[x] # upd.key} |-> acctKey[a]]
                   ELSE IF upd.op = "rekey" THEN (upd.acct :> upd.key) @@ acctKey
                   ELSE acctKey
-    /\ Keep(<<cell, tries, wire, newest, sentNonces, polls, pollUrl, nreq, retryDue, caller, prev>>)
+    /\ Keep(<<cell, tries, wire, newest, sentNonces, polls, pollUrl, nreq, retryDue, caller, prev, getFailed>>)
 
 (* The transmission never reaches the CA: `send().await?' returns at once.    *)
 Lose ==
     /\ answer' = [kind |-> "lost", type |-> "none", nonce |-> NoNonce]
     /\ phase' = "answered"
     /\ Keep(<<cell, issued, consumed, tries, content, wire, newest, sentNonces, polls,
-              pollUrl, nreq, acctKey, retryDue, caller, prev>>) /\ bad' = {}
+              pollUrl, nreq, acctKey, retryDue, caller, prev, getFailed>>) /\ bad' = {}
 
 (* The CA loses an account (outside any request).  The key it held stays in   *)
 (* the table: requests that still name the account are judged against it.      *)
 CaForget(a) ==
     /\ acctKey' = acctKey
     /\ Keep(<<cell, issued, consumed, phase, tries, content, wire, answer, newest,
-              sentNonces, polls, pollUrl, nreq, retryDue, caller, prev>>) /\ bad' = {}
+              sentNonces, polls, pollUrl, nreq, retryDue, caller, prev, getFailed>>) /\ bad' = {}
 
 (* check_status is Ok: the call returns the response.                         *)
 ClientOk ==
     /\ bad' = Chk("C08_NoSuccessOnError", answer.kind = "ok")
     /\ phase' = "ok" /\ prev' = [prev EXCEPT !.fail = "none"]
     /\ Keep(<<cell, issued, consumed, tries, content, wire, answer, newest, sentNonces,
-              polls, pollUrl, nreq, acctKey, retryDue, caller>>)
+              polls, pollUrl, nreq, acctKey, retryDue, caller, getFailed>>)
 
 (* Non-2xx with a problem document of type `type'; recov: the code's own      *)
 (* classification.  Recoverable: sleep a second and loop; otherwise return.   *)
@@ -231,21 +237,21 @@ ClientErr(type, recov) ==
     /\ retryDue' = (type \in Recoverable /\ tries < MaxTries)
     /\ prev' = [prev EXCEPT !.fail = IF type = "accountDoesNotExist" THEN "adne" ELSE "open"]
     /\ Keep(<<cell, issued, consumed, tries, content, wire, newest, sentNonces, polls,
-              pollUrl, nreq, acctKey, caller>>)
+              pollUrl, nreq, acctKey, caller, getFailed>>)
 
 (* The loop ran out: "too much errors, will not retry".                       *)
 GiveUp ==
     /\ bad' = Chk("C08_AtMost10", tries >= MaxTries)
     /\ phase' = "failed" /\ retryDue' = FALSE
     /\ Keep(<<cell, issued, consumed, tries, content, wire, answer, newest, sentNonces,
-              polls, pollUrl, nreq, acctKey, caller, prev>>)
+              polls, pollUrl, nreq, acctKey, caller, prev, getFailed>>)
 
 (* Any other way out of http::post (`?' on a lost connection, an invalid      *)
 (* Replay-Nonce header, a body that is not a problem document).               *)
 Fail ==
     /\ phase' = "failed"
     /\ Keep(<<cell, issued, consumed, tries, content, wire, answer, newest, sentNonces,
-              polls, pollUrl, nreq, acctKey, retryDue, caller, prev>>) /\ bad' = {}
+              polls, pollUrl, nreq, acctKey, retryDue, caller, prev, getFailed>>) /\ bad' = {}
 
 -----------------------------------------------------------------------------
 (* Model checking: the client as the code implements it (with Deviations)     *)
@@ -277,11 +283,11 @@ MCFetch ==
          IF n # NoNonce
          THEN /\ issued' = issued \cup {n} /\ cell' = n /\ newest' = n /\ phase' = "loop"
               /\ Keep(<<consumed, tries, content, wire, answer, sentNonces, polls, pollUrl,
-                        nreq, acctKey, retryDue, caller, prev>>) /\ bad' = {}
+                        nreq, acctKey, retryDue, caller, prev, getFailed>>) /\ bad' = {}
          ELSE /\ phase' = IF "SendWithoutNonce" \in Deviations THEN "loop" ELSE "failed"
               /\ retryDue' = IF "SendWithoutNonce" \in Deviations THEN retryDue ELSE FALSE
               /\ Keep(<<cell, issued, consumed, tries, content, wire, answer, newest,
-                        sentNonces, polls, pollUrl, nreq, acctKey, caller, prev>>) /\ bad' = {}
+                        sentNonces, polls, pollUrl, nreq, acctKey, caller, prev, getFailed>>) /\ bad' = {}
 
 CellAfterUse == IF "NonceNotCleared" \in Deviations THEN cell ELSE NoNonce
 
@@ -295,7 +301,7 @@ MCSend ==
                            THEN "failed"    \* the nonce test hoisted out of the loop: "no anti-replay nonce", call abandoned
                            ELSE "fetch"     \* no nonce came with the error: fetch one first
                /\ Keep(<<cell, issued, consumed, tries, content, wire, answer, newest,
-                         sentNonces, polls, pollUrl, nreq, acctKey, retryDue, caller, prev>>) /\ bad' = {}
+                         sentNonces, polls, pollUrl, nreq, acctKey, retryDue, caller, prev, getFailed>>) /\ bad' = {}
           ELSE Send(cell, CellAfterUse)
     \/ /\ phase = "loop" /\ tries > 0     \* back from the in-loop fetch
        /\ Send(cell, CellAfterUse)
